@@ -1,16 +1,20 @@
 """C07 - importing a model is behaviour-preserving and leaves the user's model intact.
 
-design level : ImportLifeMC (state machine User/Grow -> Convert(method, mode, fold_bn, autoconvert) -> [SetMode] -> Export over
-               every architecture of a bounded grammar) with the object-level model of specs/ImportLife.tla:
+design level : ImportLifeMC (state machine User/Grow -> Conv(method, mode, fold_bn, autoconvert) -> any history of
+               Train / Eval / Export / Summary / Cost / Forward) with the object-level model of specs/ImportLife.tla
+               (layer objects carry a CONFIGURATION record; SuperNet blocks carry the options the user set):
                  * as-implemented model on the supported space            -> must hold
                  * reference model on the WHOLE grammar                   -> must hold
-                 * as-implemented model with user-placed layers + BN (F50) and with reused conv+BN pairs (F51) -> must FAIL (sanity)
-spec -> code : the (architecture, configuration) pairs TLC enumerates (Conv transitions of the dump config) are built for
-               real (harness/import_gen.py): GrammarNet, hand-placed PITConv1d/PITConv2d/PITLinear, SuperNetModule blocks,
-               two-input wrapper; PIT / SuperNet / MPS constructed on them
-code -> spec : everything observed (mode flags, masks, float64 output differences, state_dict of the caller's model, layer
-               sequence of the original and of the immediately exported network) is logged and TLC (ImportLifeTrace) decides
-               every clause, recomputing the expected layer sequences with the operators the design level checks.
+                 * as-implemented model on the finding topologies F50..F53 and the sanity variants `droppm` (the copy of a
+                   layer loses its padding_mode), `snreset` (SuperNet(...) resets the options of the user's blocks),
+                   `stalemode` (export() restores the mode found at import)  -> must FAIL
+spec -> code : three dumps of TLC are built for real (harness/import_gen.py): structures (<= 2 nodes, default configuration),
+               configurations (one layer, every padding kind/mode, dilation, stride, groups, BatchNorm and SuperNet-option
+               preset), histories (every call history of length <= 3 / 4 on one-layer networks)
+code -> spec : everything observed (mode flags after every step, masks, attributes of the searchable layers, float64 output
+               differences against outputs RECORDED BEFORE the conversion, state_dict / attributes / block options of the caller's
+               model, layer sequence of the exported network) is logged and TLC (ImportLifeTrace) decides every clause,
+               recomputing the expected layer sequences with the operators the design level checks.
 """
 from __future__ import annotations
 
@@ -26,6 +30,7 @@ from .. import import_gen, tlc
 from ..core import Run, use_repo
 
 WORKERS = 8
+ACTIONS = ("train", "eval", "export", "summary", "cost", "forward")
 
 
 # ------------------------------------------------------------------------------------------ design runs (background threads)
@@ -61,7 +66,7 @@ class _Bg:
         return res
 
 
-# ------------------------------------------------------------------------------------------ scenarios from TLC's dump
+# ------------------------------------------------------------------------------------------ scenarios from TLC's dumps
 def _conjunct(block: str, var: str) -> str:
     m = re.search(r"(?ms)^/\\ " + var + r" = (.*?)(?=^/\\ |\Z)", block)
     if not m:
@@ -70,8 +75,8 @@ def _conjunct(block: str, var: str) -> str:
 
 
 def _dump_scenarios(path: str, expected_states: int) -> List[Dict[str, Any]]:
-    """Every `converted` state of the dump = one (architecture, method, configuration) scenario, still as raw text
-    (parsed lazily, after sampling) plus cheap stratification features."""
+    """Every `converted` state of the dump = one (architecture, method, configuration, history) scenario, still as raw
+    text (parsed lazily, after sampling) plus cheap stratification features."""
     txt = open(path).read()
     blocks = [b for b in re.split(r"(?m)^State \d+:\s*$", txt) if b.strip()]
     if len(blocks) != expected_states:
@@ -82,28 +87,33 @@ def _dump_scenarios(path: str, expected_states: int) -> List[Dict[str, Any]]:
             continue
         a = _conjunct(b, "arch")
         c = _conjunct(b, "cfg")
+        h = _conjunct(b, "hist")
         ops = tuple(re.findall(r'op \|-> "(\w+)"', a))
         feat = (c, ops, "two |-> \"no\"" in a, "bn |-> TRUE" in a, "pl |-> TRUE" in a, "excl |-> TRUE" in a,
-                bool(re.search(r"reuse \|-> [1-9]", a)), "dw |-> TRUE" in a, bool(re.search(r"sn \|-> <<\[", a)))
-        out.append({"arch_txt": a, "cfg_txt": c, "feat": feat})
+                bool(re.search(r"reuse \|-> [1-9]", a)), "dw |-> TRUE" in a, bool(re.search(r"sn \|-> <<\[", a)),
+                tuple(re.findall(r'pad \|-> "(\w+)"', a)), tuple(re.findall(r'pm \|-> "(\w+)"', a)),
+                "aff |-> FALSE" in a, "trs |-> FALSE" in a, "grp |-> 2" in a, "hard |-> TRUE" in a, "gum |-> TRUE" in a,
+                tuple(re.findall(r"fav \|-> (\d)", a)))
+        out.append({"arch_txt": a, "cfg_txt": c, "hist_txt": h, "feat": feat})
     return out
 
 
-def _materialize(raw: Dict[str, Any], rng: random.Random) -> Dict[str, Any]:
+def _materialize(raw: Dict[str, Any], rng: random.Random, src: str, hist=None) -> Dict[str, Any]:
     a = tlc.parse_value(raw["arch_txt"])
     c = tlc.parse_value(raw["cfg_txt"])
+    h = list(tlc.parse_value(raw["hist_txt"])) if hist is None else list(hist)
     arch = {"dim": a["dim"], "c0": a["c0"], "sp": a["sp"], "two": a["two"], "ca": a["ca"],
-            "nodes": [dict(n, ins=list(n["ins"]), sn=[dict(b) for b in n["sn"]]) for n in a["nodes"]]}
+            "nodes": [dict(n, ins=list(n["ins"]), sn=[dict(b) for b in n["sn"]], sno=dict(n["sno"])) for n in a["nodes"]]}
     return {"arch": import_gen.norm_iarch(arch), "method": c["method"], "mode": c["mode"], "fold": bool(c["fold"]),
-            "auto": bool(c["auto"]), "seed": rng.randrange(10 ** 6), "src": "tlc"}
+            "auto": bool(c["auto"]), "hist": h, "seed": rng.randrange(10 ** 6), "src": src}
 
 
-def _stratified(raws: List[Dict[str, Any]], limit: int, rng: random.Random) -> List[Dict[str, Any]]:
+def _stratified(raws: List[Dict[str, Any]], limit: int, rng: random.Random, key="feat") -> List[Dict[str, Any]]:
     if not limit or len(raws) <= limit:
         return list(raws)
     buckets: Dict[Any, list] = {}
     for r in raws:
-        buckets.setdefault(r["feat"], []).append(r)
+        buckets.setdefault(r[key], []).append(r)
     keys = sorted(buckets, key=repr)
     rng.shuffle(keys)
     out = []
@@ -119,37 +129,87 @@ def _stratified(raws: List[Dict[str, Any]], limit: int, rng: random.Random) -> L
     return out
 
 
+def _hist_valid(h: List[str], wm: bool) -> bool:
+    for a in h:
+        if a == "train":
+            wm = True
+        elif a == "eval":
+            wm = False
+        elif a == "forward" and wm:
+            return False
+    return True
+
+
 # ------------------------------------------------------------------------------------------ random scenarios (same grammar, larger)
-def random_scenario(rng: random.Random) -> Dict[str, Any]:
-    method = rng.choices(["PIT", "SN", "MPS"], weights=[6, 2, 1.5])[0]
+def random_history(rng: random.Random, wm: bool, maxlen: int) -> List[str]:
+    h: List[str] = []
+    for _ in range(rng.randint(0, maxlen)):
+        a = rng.choice([x for x in ACTIONS if not (x == "forward" and wm)])
+        if a == "train":
+            wm = True
+        elif a == "eval":
+            wm = False
+        h.append(a)
+    return h
+
+
+def random_scenario(rng: random.Random, maxhist: int = 3) -> Dict[str, Any]:
+    method = rng.choices(["PIT", "SN", "MPS"], weights=[6, 2.5, 1.5])[0]
     dim = rng.choice([1, 2]) if method != "MPS" else rng.choice([2, 2, 1])
     c0 = rng.choice([2, 3, 4])
-    sp = rng.choice([4, 6, 8]) if dim == 1 else rng.choice([4, 6])
+    sp = rng.choice([6, 8, 10]) if dim == 1 else rng.choice([4, 6])
     two = rng.choice(["no", "no", "add", "cat"])
     widths = (2, 3, 4, 6)
     nodes: List[Dict[str, Any]] = []
     cur, ch, s_now, flat = 0, c0, sp, False
     allow_pl = method == "PIT" and rng.random() < 0.5
-    allow_excl = method in ("PIT", "MPS") and rng.random() < 0.3
-    allow_reuse = rng.random() < 0.35
+    allow_excl = method in ("PIT", "MPS") and rng.random() < 0.4
+    allow_reuse = rng.random() < 0.3
     p_bn = rng.choice([0.3, 0.6, 0.9])
+    odd_bn = rng.random() < 0.25            # BatchNorm without affine parameters / running statistics
+    auto = method != "PIT" or rng.random() < 0.7
 
-    def deco(nd):
+    def deco(nd, can_pl=True):
         nd["bias"] = rng.random() < 0.6
         nd["bn"] = rng.random() < p_bn
         nd["eps"], nd["mom"] = rng.randrange(2), rng.randrange(2)
-        if allow_pl and rng.random() < 0.35:
+        if nd["bn"] and odd_bn:
+            nd["aff"] = rng.random() < 0.6
+            nd["trs"] = rng.random() < 0.7
+        if allow_pl and can_pl and rng.random() < 0.35:
             nd["pl"] = True
-        elif allow_excl and rng.random() < 0.25:
+        elif allow_excl and rng.random() < 0.3:
             nd["excl"] = True
         return nd
 
     def conv(src, out, dw=False, same=False):
-        k = rng.choice([1, 2, 3, 5]) if dim == 1 else rng.choice([1, 3])
-        nd = {"op": "conv", "ins": [src], "out": 0 if dw else out, "dw": dw, "k": k,
-              "d": rng.choice([1, 1, 2]) if dim == 1 else 1, "s": 1 if same else rng.choice([1, 1, 1, 2]),
-              "causal": dim == 1}
-        return deco(nd)
+        """A conv node on tensor `src` with a random configuration that torch accepts at the current size."""
+        nd = {"op": "conv", "ins": [src], "out": 0 if dw else out, "dw": dw}
+        for _ in range(20):
+            pad = rng.choice(["same", "same", "int", "int", "valid", "causal"] if dim == 1 else ["same", "int", "int", "valid"])
+            k = rng.choice([1, 2, 3, 5]) if pad in ("same", "causal", "valid") else rng.choice([1, 3, 5])
+            d = rng.choice([1, 1, 2, 3]) if dim == 1 else rng.choice([1, 1, 2])
+            s = 1 if (same or pad == "same") else rng.choice([1, 1, 2])
+            pm = rng.choice(["zeros", "zeros", "reflect", "replicate", "circular"]) if pad in ("same", "int") else "zeros"
+            if dim == 2 and k == 2:
+                continue                                        # even kernels: 1-D only
+            tot = d * (k - 1)                                   # total padding of 'same'; 2 * p of 'int'
+            if pm != "zeros" and (tot == 0 or (tot + 1) // 2 >= s_now):
+                continue                                        # reflect / circular need 0 < padding < size
+            if pad == "valid" and (same or s_now - tot < 1):
+                continue
+            if same and pad == "valid":
+                continue
+            nd.update({"k": k, "d": d, "s": s, "pad": pad, "pm": pm})
+            break
+        else:
+            nd.update({"k": 1, "d": 1, "s": 1, "pad": "same", "pm": "zeros"})
+        return nd
+
+    def out_sp(nd, sp_in):
+        if nd["pad"] == "valid":
+            return (sp_in - nd["d"] * (nd["k"] - 1) - 1) // nd["s"] + 1
+        return (sp_in - 1) // nd["s"] + 1
 
     steps = rng.randint(1, 7)
     n_sn = 0
@@ -160,39 +220,57 @@ def random_scenario(rng: random.Random) -> Dict[str, Any]:
         T = len(nodes)
         if not flat:
             # (a depthwise layer directly on cat(xa, xb) is the F19 topology of C09: not generated)
-            kind = rng.choices(["conv", "dw", "relu", "pool", "res", "reuse", "flat"],
-                               weights=[5, 0 if (two == "cat" and cur == 0) else 2, 2, 1 if s_now >= 2 else 0, 2,
-                                        1.2 if allow_reuse else 0, 1.5])[0]
+            kind = rng.choices(["conv", "dw", "grp", "relu", "drop", "pool", "res", "reuse", "lin3", "flat"],
+                               weights=[5, 0 if (two == "cat" and cur == 0) else 2,
+                                        0.8 if (ch >= 4 and ch % 2 == 0 and (method != "PIT" or allow_excl or not auto)) else 0,
+                                        2, 1, 1 if s_now >= 2 else 0, 2, 1.2 if allow_reuse else 0,
+                                        0.5 if dim == 1 else 0, 1.5])[0]
             if kind == "conv":
                 w = rng.choice(widths)
-                nd = conv(cur, w)
+                nd = deco(conv(cur, w))
                 if method == "SN" and n_sn < 2 and rng.random() < 0.6:
-                    nd.update({"s": 1, "d": 1, "causal": False, "bn": False, "pl": False, "excl": False,
-                               "sn": [{"k": rng.choice([1, 3, 5]) if dim == 1 else rng.choice([1, 3]), "bn": rng.random() < 0.5}
-                                      for _ in range(rng.randint(2, 3))]})
+                    nb = rng.randint(2, 3)
+                    nd = {"op": "conv", "ins": [cur], "out": w, "bias": nd["bias"],
+                          "sn": [{"k": rng.choice([1, 3, 5]) if dim == 1 else rng.choice([1, 3]), "bn": rng.random() < 0.5}
+                                 for _ in range(nb)],
+                          "sno": {"hard": rng.random() < 0.4, "gum": rng.random() < 0.3, "temp": rng.choice([10, 10, 5, 20]),
+                                  "fav": rng.choice([0, 0] + list(range(1, nb + 1)))},
+                          "eps": rng.randrange(2), "mom": rng.randrange(2)}
                     n_sn += 1
-                nodes.append(nd)
-                s_now = (s_now - 1) // nd["s"] + 1
+                    nodes.append(nd)
+                else:
+                    nodes.append(nd)
+                    s_now = out_sp(nd, s_now)
                 cur, ch = T + 1, w
             elif kind == "dw":
-                nd = conv(cur, ch, dw=True)
+                nd = deco(conv(cur, ch, dw=True))
                 nodes.append(nd)
-                s_now = (s_now - 1) // nd["s"] + 1
+                s_now = out_sp(nd, s_now)
                 cur = T + 1
-            elif kind == "relu" and cur != 0:
-                nodes.append({"op": "relu", "ins": [cur]})
+            elif kind == "grp":          # grouped (neither full nor depthwise): PIT accepts it only outside the search
+                w = rng.choice([4, 6])
+                nd = deco(conv(cur, w), can_pl=False)
+                nd["grp"] = 2
+                nd["pl"] = False
+                if method == "PIT" and auto:
+                    nd["excl"] = True
+                nodes.append(nd)
+                s_now = out_sp(nd, s_now)
+                cur, ch = T + 1, w
+            elif kind in ("relu", "drop") and cur != 0:
+                nodes.append({"op": kind, "ins": [cur]})
                 cur = T + 1
             elif kind == "pool" and cur != 0 and s_now >= 2:
                 nodes.append({"op": "pool", "ins": [cur], "kind": rng.choice(["avg", "max"])})
                 s_now //= 2
                 cur = T + 1
-            elif kind == "res":          # residual block: conv (same width) -> relu -> add skip
-                nodes.append(conv(cur, ch, same=True))
+            elif kind == "res":          # residual block: conv (same width and size) -> relu -> add skip
+                nodes.append(deco(conv(cur, ch, same=True)))
                 nodes.append({"op": "relu", "ins": [T + 1]})
                 nodes.append({"op": "add", "ins": [T + 2, cur]})
                 cur = T + 3
             elif kind == "reuse":        # weight-shared block invoked twice:  h' = relu(B(h)) + h ; h'' = relu(B(h')) + h'
-                blk = conv(cur, ch, same=True)
+                blk = deco(conv(cur, ch, same=True))
                 blk.pop("excl", None)
                 nodes.append(blk)
                 nodes.append({"op": "relu", "ins": [T + 1]})
@@ -203,18 +281,26 @@ def random_scenario(rng: random.Random) -> Dict[str, Any]:
                 nodes.append({"op": "relu", "ins": [T + 4]})
                 nodes.append({"op": "add", "ins": [T + 5, T + 3]})
                 cur = T + 6
+            elif kind == "lin3" and cur != 0:      # nn.Linear on the (N, C, L) tensor: features on the last axis
+                w = rng.choice([2, 3, 4])
+                nd = {"op": "lin3", "ins": [cur], "out": w, "bias": rng.random() < 0.6}
+                if method == "PIT" and auto and rng.random() < 0.7:
+                    nd["excl"] = True              # (searchable: finding F52)
+                nodes.append(nd)
+                s_now = w
+                cur = T + 1
             elif kind == "flat" and ch * s_now ** dim <= 96:
                 nodes.append({"op": "flat", "ins": [cur]})
                 cur, ch, flat = T + 1, ch * s_now ** dim, True
         else:
             # (a residual sum of flatten(conv) and a linear output is the F24 topology of C09: only linear outputs are added)
-            kind = rng.choices(["lin", "relu", "res"], weights=[4, 2, 1.5 if lin_seen else 0])[0]
+            kind = rng.choices(["lin", "relu", "drop", "res"], weights=[4, 2, 1, 1.5 if lin_seen else 0])[0]
             if kind == "lin":
                 w = rng.choice(widths)
                 nodes.append(deco({"op": "lin", "ins": [cur], "out": w}))
                 cur, ch, lin_seen = T + 1, w, True
-            elif kind == "relu":
-                nodes.append({"op": "relu", "ins": [cur]})
+            elif kind in ("relu", "drop"):
+                nodes.append({"op": kind, "ins": [cur]})
                 cur = T + 1
             else:
                 nodes.append(deco({"op": "lin", "ins": [cur], "out": ch}))
@@ -224,7 +310,7 @@ def random_scenario(rng: random.Random) -> Dict[str, Any]:
         T = len(nodes)
         if not flat:
             if ch * s_now ** dim > 96:
-                nodes.append(conv(cur, 2, same=True))
+                nodes.append({"op": "conv", "ins": [cur], "out": 2, "k": 1, "pad": "same"})
                 T += 1
                 cur, ch = T, 2
             if ch * s_now ** dim <= 96:
@@ -234,53 +320,77 @@ def random_scenario(rng: random.Random) -> Dict[str, Any]:
         if flat:
             nodes.append(deco({"op": "lin", "ins": [cur], "out": rng.choice([2, 3, 5])}))
         else:
-            nodes.append(conv(cur, 2, same=True))
+            nodes.append({"op": "conv", "ins": [cur], "out": 2, "k": 1, "pad": "same"})
     arch = {"dim": dim, "c0": c0, "sp": sp, "two": two, "ca": rng.randrange(1, c0) if two == "cat" else 0, "nodes": nodes}
-    return {"arch": import_gen.norm_iarch(arch), "method": method, "mode": rng.choice(["train", "eval"]),
-            "fold": method == "PIT" and rng.random() < 0.5, "auto": method != "PIT" or rng.random() < 0.7,
+    mode = rng.choice(["train", "eval"])
+    return {"arch": import_gen.norm_iarch(arch), "method": method, "mode": mode,
+            "fold": method == "PIT" and rng.random() < 0.5, "auto": auto,
+            "hist": random_history(rng, True if method == "SN" else mode == "train", maxhist),
             "seed": rng.randrange(10 ** 6), "src": "random"}
 
 
 def fixed_scenarios() -> List[Dict[str, Any]]:
-    """Hand-written regression scenarios (the shapes of the repository's own test models)."""
+    """Hand-written regression scenarios (the shapes of the repository's own test models and of the seeded defects)."""
     scs = []
     # SimplePitNN of the unit tests: user-placed PITConv1d + BatchNorm, plain conv + BatchNorm, linear head
     a = {"dim": 1, "c0": 3, "sp": 8, "nodes": [
-        {"op": "conv", "ins": [0], "out": 4, "k": 3, "bn": True, "pl": True, "causal": False},
+        {"op": "conv", "ins": [0], "out": 4, "k": 3, "bn": True, "pl": True, "pad": "same"},
         {"op": "pool", "ins": [1], "kind": "avg"}, {"op": "relu", "ins": [2]},
-        {"op": "conv", "ins": [3], "out": 5, "k": 5, "bn": True, "causal": False},
-        {"op": "pool", "ins": [4], "kind": "avg"}, {"op": "relu", "ins": [5]},
-        {"op": "flat", "ins": [6]}, {"op": "lin", "ins": [7], "out": 3}]}
+        {"op": "conv", "ins": [3], "out": 5, "k": 5, "bn": True, "pad": "same"},
+        {"op": "pool", "ins": [4], "kind": "avg"}, {"op": "relu", "ins": [5]}, {"op": "drop", "ins": [6]},
+        {"op": "flat", "ins": [7]}, {"op": "lin", "ins": [8], "out": 3}]}
     for auto in (True, False):
         for fold in (False, True):
-            scs.append({"arch": a, "method": "PIT", "mode": "train", "fold": fold, "auto": auto, "seed": 11})
+            scs.append({"arch": a, "method": "PIT", "mode": "train", "fold": fold, "auto": auto, "seed": 11, "hist": ["eval", "export"]})
     # ToyBatchNorm-like: depthwise + BN, pointwise + BN (no bias), linear + BatchNorm1d
     b = {"dim": 2, "c0": 3, "sp": 4, "nodes": [
-        {"op": "conv", "ins": [0], "dw": True, "k": 3, "bn": True, "bias": False, "eps": 1},
+        {"op": "conv", "ins": [0], "dw": True, "k": 3, "pad": "int", "bn": True, "bias": False, "eps": 1},
         {"op": "relu", "ins": [1]},
-        {"op": "conv", "ins": [2], "out": 4, "k": 1, "bn": True, "bias": False, "mom": 1},
+        {"op": "conv", "ins": [2], "out": 4, "k": 1, "pad": "int", "bn": True, "bias": False, "mom": 1},
         {"op": "relu", "ins": [3]}, {"op": "pool", "ins": [4], "kind": "max"}, {"op": "flat", "ins": [5]},
         {"op": "lin", "ins": [6], "out": 5, "bn": True}, {"op": "relu", "ins": [7]},
         {"op": "lin", "ins": [8], "out": 2}]}
     for mode in ("train", "eval"):
         for fold in (False, True):
-            scs.append({"arch": b, "method": "PIT", "mode": mode, "fold": fold, "auto": True, "seed": 12})
-        scs.append({"arch": b, "method": "MPS", "mode": mode, "fold": False, "auto": True, "seed": 12})
+            scs.append({"arch": b, "method": "PIT", "mode": mode, "fold": fold, "auto": True, "seed": 12,
+                        "hist": ["eval", "export", "forward"] if mode == "train" else ["train", "export", "cost"]})
+        scs.append({"arch": b, "method": "MPS", "mode": mode, "fold": False, "auto": True, "seed": 12,
+                    "hist": ["eval", "export", "cost"] if mode == "train" else ["train", "export", "summary"]})
     # conv + BN invoked twice (layer reuse)
     c = {"dim": 2, "c0": 2, "sp": 4, "nodes": [
-        {"op": "conv", "ins": [0], "out": 2, "k": 3, "bn": True, "bias": False}, {"op": "relu", "ins": [1]},
-        {"op": "conv", "ins": [2], "out": 2, "k": 3, "bn": True, "bias": False, "reuse": 1},
+        {"op": "conv", "ins": [0], "out": 2, "k": 3, "pad": "int", "bn": True, "bias": False}, {"op": "relu", "ins": [1]},
+        {"op": "conv", "ins": [2], "out": 2, "k": 3, "pad": "int", "bn": True, "bias": False, "reuse": 1},
         {"op": "flat", "ins": [3]}, {"op": "lin", "ins": [4], "out": 3, "bn": True}]}
     for fold in (False, True):
-        scs.append({"arch": c, "method": "PIT", "mode": "eval", "fold": fold, "auto": True, "seed": 13})
-    # SuperNet: two choice blocks, two-input forward, residual
-    d = {"dim": 2, "c0": 2, "sp": 4, "two": "add", "nodes": [
-        {"op": "conv", "ins": [0], "out": 3, "sn": [{"k": 3, "bn": True}, {"k": 1, "bn": False}]},
+        scs.append({"arch": c, "method": "PIT", "mode": "eval", "fold": fold, "auto": True, "seed": 13, "hist": []})
+    # padding modes / dilation / stride / excluded layers followed by (unfused) BatchNorm and Dropout, 1-D and 2-D
+    for dim in (1, 2):
+        d = {"dim": dim, "c0": 4, "sp": 8 if dim == 1 else 6, "nodes": [
+            {"op": "conv", "ins": [0], "out": 4, "k": 3, "pad": "same", "pm": "reflect", "bn": True, "eps": 1},
+            {"op": "drop", "ins": [1]},
+            {"op": "conv", "ins": [2], "out": 4, "k": 3, "d": 2, "pad": "int", "pm": "circular", "s": 2, "bn": True, "excl": True},
+            {"op": "conv", "ins": [3], "out": 4, "k": 3, "pad": "int", "pm": "replicate", "grp": 2, "excl": True, "bias": False},
+            {"op": "conv", "ins": [4], "dw": True, "k": 3, "pad": "same", "pm": "circular", "bn": True},
+            {"op": "flat", "ins": [5]},
+            {"op": "lin", "ins": [6], "out": 3, "bn": True, "excl": True}]}
+        for fold in (False, True):
+            scs.append({"arch": d, "method": "PIT", "mode": "train", "fold": fold, "auto": True, "seed": 15 + dim,
+                        "hist": ["eval", "export", "forward"]})
+            scs.append({"arch": d, "method": "PIT", "mode": "eval", "fold": fold, "auto": True, "seed": 17 + dim,
+                        "hist": ["train", "export", "eval"]})
+    # SuperNet: choice blocks with options the user configured, two-input forward, residual, dropout
+    e = {"dim": 2, "c0": 2, "sp": 4, "two": "add", "nodes": [
+        {"op": "conv", "ins": [0], "out": 3, "sn": [{"k": 3, "bn": True}, {"k": 1, "bn": False}],
+         "sno": {"hard": True, "gum": False, "temp": 5, "fav": 2}},
         {"op": "relu", "ins": [1]},
-        {"op": "conv", "ins": [2], "out": 3, "bias": False, "sn": [{"k": 1, "bn": False}, {"k": 3, "bn": False}, {"k": 3, "bn": True}]},
-        {"op": "add", "ins": [3, 1]}, {"op": "flat", "ins": [4]}, {"op": "lin", "ins": [5], "out": 3, "bn": True}]}
+        {"op": "conv", "ins": [2], "out": 3, "bias": False, "sn": [{"k": 1, "bn": False}, {"k": 3, "bn": False}, {"k": 3, "bn": True}],
+         "sno": {"hard": False, "gum": True, "temp": 20, "fav": 3}},
+        {"op": "add", "ins": [3, 1]}, {"op": "drop", "ins": [4]}, {"op": "flat", "ins": [5]},
+        {"op": "lin", "ins": [6], "out": 3, "bn": True}]}
     for mode in ("train", "eval"):
-        scs.append({"arch": d, "method": "SN", "mode": mode, "fold": False, "auto": True, "seed": 14})
+        scs.append({"arch": e, "method": "SN", "mode": mode, "fold": False, "auto": True, "seed": 14,
+                    "hist": ["eval", "export", "summary", "cost"]})
+        scs.append({"arch": e, "method": "SN", "mode": mode, "fold": False, "auto": True, "seed": 14, "hist": ["train", "export", "eval"]})
     for s in scs:
         s["arch"] = import_gen.norm_iarch(s["arch"])
         s["src"] = "fixed"
@@ -289,15 +399,18 @@ def fixed_scenarios() -> List[Dict[str, Any]]:
 
 # ------------------------------------------------------------------------------------------ bookkeeping
 def _key(sc):
-    return {k: sc.get(k) for k in ("arch", "method", "mode", "fold", "auto")}
+    return {k: sc.get(k) for k in ("arch", "method", "mode", "fold", "auto", "hist")}
 
 
 def _nontrivial(sc) -> bool:
-    """The converter has something to fuse / fold / adopt / select: a BatchNorm after a conv/linear layer, a user-placed
-    PIT layer, a SuperNet block, a reused layer or a two-input forward.  (Trivial: single-input plain conv/linear net.)"""
+    """The converter or the history has something to get wrong: a BatchNorm after a conv/linear layer, a user-placed PIT
+    layer, a SuperNet block, a reused layer, a two-input forward, a non-default layer configuration (padding mode, dilation,
+    stride, groups, un-padded) or a non-empty call history.  (Trivial: single-input plain conv/linear net, no history.)"""
     a = sc["arch"]
-    return a.get("two", "no") != "no" or any(
-        n["op"] in ("conv", "lin") and (n["bn"] or n["pl"] or n["sn"] or n["reuse"]) for n in a["nodes"])
+    return bool(sc.get("hist")) or a.get("two", "no") != "no" or any(
+        n["op"] in import_gen.LAYER_OPS and (n["bn"] or n["pl"] or n["sn"] or n["reuse"] or n["pm"] != "zeros" or n["d"] > 1
+                                             or n["s"] > 1 or n["grp"] > 1 or n["pad"] == "valid" or n["op"] == "lin3")
+        for n in a["nodes"])
 
 
 def _execute_and_validate(R: Run, scs: List[Dict[str, Any]], label: str) -> None:
@@ -305,19 +418,28 @@ def _execute_and_validate(R: Run, scs: List[Dict[str, Any]], label: str) -> None
         return
     trs = import_gen.run_scenarios(scs, procs=WORKERS)
     ob = R.extra.setdefault("observations", {
-        "scenarios_by_method": {}, "constructor_rejected_MPS_skipped": 0, "caller_left_in_eval_mode": 0,
+        "scenarios_by_method": {}, "scenarios_by_source": {}, "constructor_rejected_MPS_skipped": 0,
+        "constructor_rejected_PIT_documented_skipped": 0, "caller_left_in_eval_mode": 0,
         "caller_found_in_train_mode": 0, "supernet_seed_eval_wrapper_train": 0, "supernet_scenarios": 0,
         "mps_altered_callers_parameters_by_design": 0, "mps_scenarios": 0, "caller_state_dict_gained_keys": 0,
-        "seed_left_in_eval_by_export": 0, "exports": 0})
+        "caller_modules_gained_attributes": 0, "exports": 0, "exports_with_dead_nodes": 0, "history_steps": 0,
+        "layers_with_nonzero_padding_mode": 0, "supernet_blocks_with_nondefault_options": 0})
     for sc, tr in zip(scs, trs):
         m = sc["method"]
         ob["scenarios_by_method"][m] = ob["scenarios_by_method"].get(m, 0) + 1
+        ob["scenarios_by_source"][sc.get("src", "?")] = ob["scenarios_by_source"].get(sc.get("src", "?"), 0) + 1
+        ob["layers_with_nonzero_padding_mode"] += sum(1 for n in sc["arch"]["nodes"] if n["op"] == "conv" and n["pm"] != "zeros")
+        ob["supernet_blocks_with_nondefault_options"] += sum(
+            1 for n in sc["arch"]["nodes"] if n["sn"] and (n["sno"]["hard"] or n["sno"]["gum"] or n["sno"]["temp"] != 10 or n["sno"]["fav"]))
         if not tr["conv_ok"]:
             if m == "MPS":
                 ob["constructor_rejected_MPS_skipped"] += 1
                 if len(R.notes) < 5:
                     R.notes.append(f"MPS rejected: {tr['err'][:100]}")
+            elif tr["errk"] in ("trs", "groups"):
+                ob["constructor_rejected_PIT_documented_skipped"] += 1
             continue
+        ob["history_steps"] += len(tr["H"])
         if tr["u0"]:
             ob["caller_found_in_train_mode"] += 1
             if not tr["u1"]:
@@ -332,22 +454,28 @@ def _execute_and_validate(R: Run, scs: List[Dict[str, Any]], label: str) -> None
                 ob["mps_altered_callers_parameters_by_design"] += 1
         if m != "MPS" and not tr["sd_keys"]:
             ob["caller_state_dict_gained_keys"] += 1
+        if m != "MPS" and tr["attrs_added"]:
+            ob["caller_modules_gained_attributes"] += 1
         if tr["exp_ok"]:
             ob["exports"] += 1
-            if not tr["s2"]:
-                ob["seed_left_in_eval_by_export"] += 1
+            if tr["dead"]:
+                ob["exports_with_dead_nodes"] += 1
     verdicts = R.validate("ImportLifeTrace", "ImportLifeTrace", trs, scs, nontrivial=_nontrivial, key=_key, label=label,
                           workers=WORKERS)
     for sc, v in zip(scs, verdicts):
         if v.startswith("drift:harness"):
-            raise tlc.MachineryError(f"the harness did not build the architecture the specification describes: {v[:400]} "
+            raise tlc.MachineryError(f"the harness did not build the scenario the specification describes: {v[:400]} "
                                      f"scenario={json.dumps(_key(sc))[:1500]}")
     for sc, tr, v in zip(scs, trs, verdicts):
-        if v == "ok" and _nontrivial(sc) and tr["conv_ok"]:
+        if v == "ok" and _nontrivial(sc) and tr["conv_ok"] and sc.get("hist"):
             R.sample({"scenario": _key(sc), "observed": {k: tr[k] for k in ("u0", "w1", "s1", "u1", "dw", "du", "sd_vals",
-                                                                             "sd_keys", "exp_ok", "de")},
+                                                                             "sd_keys", "attrs_changed", "dwh", "exp_ok", "de")},
+                      "history_flags": [[h["a"], h["w"], h["s"], h["kids"]] for h in tr["H"]],
                       "exported": [r["t"] for r in tr["E"]]}, maxn=4)
             break
+
+
+SANITY = ("f50", "f51", "f52", "f53", "droppm", "snreset", "stalemode")
 
 
 def run(tier: str, seed: int, replay=None) -> int:
@@ -355,70 +483,104 @@ def run(tier: str, seed: int, replay=None) -> int:
     use_repo()
     quick = tier == "quick"
     rng = random.Random(seed * 7919 + 7)
-    R.rule = ("scenario = (architecture, method in {PIT, SuperNet, MPS}, mode found, fold_bn, autoconvert). Sources: (1) the "
-              "(architecture, configuration) pairs of the Conv transitions of ImportLifeMC (grammar: conv / depthwise / linear with "
-              "bias on/off, BatchNorm on/off, user-placed PIT layer, excluded layer, layer reuse, SuperNet blocks, relu, pooling, "
-              "flatten, residual add, one/two-input forward; <= 2 operator nodes; " + ("stratified sample of 600 of them" if quick else "all of them")
-              + "); (2) seeded random architectures of the same grammar with up to ~12 nodes, widths 2..6, kernels 1..5, strides, "
-              "dilations, BatchNorm eps/momentum variants; (3) hand-written shapes of the repository's test models. "
-              "Non-trivial = the converter has something to fuse, fold, adopt or select (BatchNorm after a layer, user-placed "
-              "layer, SuperNet block, reused layer, two inputs).")
+    hl = 3 if quick else 4
+    R.rule = ("scenario = (architecture, method in {PIT, SuperNet, MPS}, mode found, fold_bn, autoconvert, call history). Sources: "
+              "(1) structures: the Conv transitions of ImportLifeMC_scen (conv / depthwise / linear, bias, BatchNorm, user-placed PIT "
+              "layer, excluded layer, layer reuse, SuperNet blocks, relu, pooling, flatten, residual add, one/two-input forward; <= 2 "
+              "nodes), each with a TLC-enumerated history; (2) configurations: ImportLifeMC_scen_cfg (one layer x padding same/int/"
+              "valid/causal x padding_mode zeros/reflect/replicate/circular x dilation x stride x groups x BatchNorm default/no affine/"
+              "no running stats/other eps+momentum x SuperNet option presets x linear on 3-D input); (3) histories: every call "
+              f"history of length <= {hl} over train/eval/export/summary/cost/forward of ImportLifeMC_hist{hl} on one-layer networks; "
+              + ("stratified samples of (1)-(3)" if quick else "all of (1)-(3)")
+              + "; (4) seeded random architectures of the same grammar with up to ~12 nodes, widths 2..6, kernels 1..5, random "
+              "configurations, Dropout, excluded layers followed by BatchNorm, random histories; (5) hand-written shapes of the "
+              "repository's test models. Non-trivial = see _nontrivial (something to fuse / fold / adopt / select / copy, or a history).")
     R.assumptions = [
         "float64 models built under torch.set_default_dtype(torch.float64); generic random weights, biases and BatchNorm statistics; "
-        "'equal outputs' means max|dy| <= 1e-9*(1+max|y|) on a random batch of 3 inputs, eval mode",
-        "the caller's parameters are compared bitwise on every state_dict entry that existed before the call; calculator buffers "
-        "that PIT registers on a user-placed PIT layer (new keys) are recorded as an observation, not as an alteration",
-        "'original architecture' = same sequence of module calls / functional ops with the same hyper-parameters and dataflow "
-        "(positions of producers); a folded BatchNorm is absorbed into a bias; a SuperNet block is replaced by one of its branches "
-        "(which one - the first maximum of the uniform coefficients - is a prediction)",
+        "'equal outputs' means max|dy| <= 1e-9*(1+max|y|) on a random batch of 3 inputs, eval mode; the reference output is recorded "
+        "BEFORE the conversion on an independent deep copy",
+        "the caller's parameters are compared bitwise on every state_dict entry that existed before the call; its user-visible "
+        "attributes = every bool/int/float/str/tuple attribute and the sampling method of every module (training flags excepted: "
+        "mode clauses); calculator buffers / attributes that PIT adds to a user-placed PIT layer are recorded, not counted as alteration",
+        "'original architecture' = same sequence of module calls / functional ops with the same hyper-parameters (incl. padding, "
+        "padding_mode, dilation, stride, groups, BatchNorm eps/momentum/affine/track_running_stats) and dataflow; a folded BatchNorm "
+        "is absorbed into a bias; a SuperNet block is replaced by one of its branches (which one - the first maximum of the "
+        "coefficients the user left - is a prediction); nodes of the exported graph that no path connects to the output are not "
+        "part of the architecture (counted under observations)",
+        "a forward pass is a history action in eval mode only (in training mode it updates BatchNorm statistics by design); after "
+        "a history whose last mode is eval the wrapper is evaluated as it is, without a further eval() call",
         "a user-placed PIT layer is created with the same fold_bn flag that is passed to PIT(...); exclude_names never names a "
         "user-placed layer; SuperNet branches are single conv (+BatchNorm) modules (functional tails are C03's domain)",
-        "MPS: only the mode clause is claimed (MPS folds BatchNorm into the caller's layers by design); architectures MPS rejects "
-        "are skipped and counted",
-        "all converters leave the CALLER's module object in eval mode (tracer.trace(model.eval())) and SuperNet leaves its seed in "
-        "eval mode: recorded under coverage.observations, not decided (the property claims the mode for the PIT/MPS wrapper only)",
+        "documented rejections are skipped and counted: BatchNorm(track_running_stats=False) after a searchable layer, grouped "
+        "(neither full nor depthwise) convolutions in the search; MPS: only the mode clauses are claimed (MPS folds BatchNorm into "
+        "the caller's layers by design), architectures MPS rejects are skipped and counted",
+        "all converters leave the CALLER's module object in eval mode and SuperNet leaves its seed in eval mode until the first "
+        "train()/eval(): recorded under coverage.observations, not decided",
         "channel / time concatenation inside the network is not generated (not in the property's grammar), except for the "
-        "two-input forward cat(xa, xb)",
+        "two-input forward cat(xa, xb); the F19 / F24 topologies of the graph pass (C09) are excluded (TLC checks InDomain)",
     ]
     if replay:
         sc = json.load(open(replay))["scenario"]
-        sc.setdefault("seed", json.load(open(replay)).get("scenario", {}).get("seed", 0))
         _execute_and_validate(R, [sc], "replay")
         return R.finish()
 
     # ---------------------------------------------------------------- design level (TLC in background threads)
     sfx = "quick" if quick else "thorough"
-    dump = tempfile.mktemp(prefix="c07-dump-", dir=tlc.scratch())
-    scen = R.design("ImportLifeMC", "ImportLifeMC_scen", workers=WORKERS, extra=["-dump", dump])
+    dumps = {}
+    res = {}
+    for name in ("scen", "scen_cfg", f"hist{hl}"):
+        dumps[name] = tempfile.mktemp(prefix=f"c07-{name}-", dir=tlc.scratch())
+    fg = {name: _Bg(R, "ImportLifeMC", f"ImportLifeMC_{name}", workers=WORKERS if name != "scen_cfg" else 4, timeout=7200,
+                    extra=["-dump", dumps[name]]) for name in dumps}
     bg = [
         # vacuity guard: every action of the state machine is taken (small instance, all invariants)
         _Bg(R, "ImportLifeMC", "ImportLifeMC_cov", workers=2, coverage=True,
-            require_cov=["ImportLifeMC!Grow", "ImportLifeMC!Conv", "ImportLifeMC!SetMode", "ImportLifeMC!Export"]),
-        # sanity (non-vacuity of the invariants): the as-implemented model violates them on the two finding topologies
-        _Bg(R, "ImportLifeMC", "ImportLifeMC_f50", workers=2, expect_ok=False),
-        _Bg(R, "ImportLifeMC", "ImportLifeMC_f51", workers=2, expect_ok=False),
-        # as-implemented model on the supported space; reference model on the whole grammar
-        _Bg(R, "ImportLifeMC", f"ImportLifeMC_{sfx}", workers=WORKERS, timeout=7200),
-        _Bg(R, "ImportLifeMC", f"ImportLifeMC_ref_{sfx}", workers=WORKERS, timeout=7200),
+            require_cov=["ImportLifeMC!Grow", "ImportLifeMC!Conv", "ImportLifeMC!HSet", "ImportLifeMC!HExport", "ImportLifeMC!HObs"]),
     ]
+    # sanity (non-vacuity of the invariants): the as-implemented model violates them on the finding topologies, and so do the
+    # three defect variants of the model
+    bg += [_Bg(R, "ImportLifeMC", f"ImportLifeMC_{s}", workers=2, expect_ok=False) for s in SANITY]
+    # as-implemented model on the supported space; reference model on the whole grammar; configuration grammar
+    bg += [_Bg(R, "ImportLifeMC", f"ImportLifeMC_{c}_{sfx}", workers=WORKERS, timeout=7200) for c in ("ref", "cfg")]
+    bg.append(_Bg(R, "ImportLifeMC", f"ImportLifeMC_{sfx}", workers=WORKERS, timeout=7200))
+    bg.append(_Bg(R, "ImportLifeMC", "ImportLifeMC_refcfg_quick", workers=WORKERS, timeout=7200))
     if not quick:
         bg.append(_Bg(R, "ImportLifeMC", "ImportLifeMC_thorough_sn", workers=WORKERS, timeout=7200))
+    for name in dumps:
+        res[name] = fg[name].join()
 
     # ---------------------------------------------------------------- spec -> code: TLC's scenarios on the real library
-    path = dump + ".dump" if os.path.exists(dump + ".dump") else dump
-    raws = _dump_scenarios(path, scen.distinct)
-    os.unlink(path)
-    R.extra["tlc_scenarios_enumerated"] = len(raws)
-    picked = _stratified(raws, 600 if quick else 0, rng)      # thorough: every enumerated scenario is built for real
-    scs = [_materialize(r, rng) for r in picked]
+    raws = {}
+    for name in dumps:
+        path = dumps[name] + ".dump" if os.path.exists(dumps[name] + ".dump") else dumps[name]
+        raws[name] = _dump_scenarios(path, res[name].distinct)
+        os.unlink(path)
+    hraws = raws[f"hist{hl}"]
+    R.extra["tlc_scenarios_enumerated"] = {k: len(v) for k, v in raws.items()}
+    # histories by (method, mode found) - structures are paired with a TLC-enumerated history of their own method and mode
+    hpool: Dict[Any, List[List[str]]] = {}
+    for r in hraws:
+        c = tlc.parse_value(r["cfg_txt"])
+        hpool.setdefault((c["method"], c["mode"]), []).append(list(tlc.parse_value(r["hist_txt"])))
+    scs: List[Dict[str, Any]] = []
+    for r in _stratified(raws["scen"], 280 if quick else 0, rng):
+        c = tlc.parse_value(r["cfg_txt"])
+        scs.append(_materialize(r, rng, "tlc-structure", hist=rng.choice(hpool[(c["method"], c["mode"])])))
+    for r in _stratified(raws["scen_cfg"], 260 if quick else 0, rng):
+        scs.append(_materialize(r, rng, "tlc-configuration"))
+    # every distinct history at least once per method; beyond that stratified by (architecture features, history)
+    for r in hraws:
+        r["hkey"] = (tlc.parse_value(r["cfg_txt"])["method"], r["hist_txt"])
+    scs += [_materialize(r, rng, "tlc-history") for r in _stratified(hraws, 360 if quick else 0, rng, key="hkey")]
     R.extra["tlc_scenarios_executed"] = len(scs)
+    R.extra["distinct_histories_executed"] = len({(s["method"], tuple(s["hist"])) for s in scs})
     # ---------------------------------------------------------------- code -> spec: random scenarios beyond the bounds
-    rs = [random_scenario(rng) for _ in range(350 if quick else 3000)]
+    rs = [random_scenario(rng, hl) for _ in range(260 if quick else 3000)]
     R.extra["random_scenarios"] = len(rs)
     _execute_and_validate(R, fixed_scenarios() + scs + rs, "fixed + tlc-enumerated + random")
 
     for b in bg:
         b.join()
     R.exhaustive = False
-    R.extra["tlc_scenarios_all_executed"] = len(scs) == len(raws)
+    R.extra["tlc_scenarios_all_executed"] = len(scs) == sum(len(v) for v in raws.values())
     return R.finish()
